@@ -19,11 +19,11 @@ func init() { register("C08", c08) }
 type sliceBlock struct {
 	n     int
 	vals  []string // "" = absent
-	form  int      // 0 bare, 1 after head a, 2 inside [*], 3 followed by [0], 4 typed []float64, 5 typed []string
+	form  int      // 0 bare, 1 after head a, 2 inside [*], 3 followed by [0], 4 typed []float64, 5 typed []string, 6 followed by .a
 	start int      // first case index
 }
 
-var sliceForms = []string{"bare [a:b:c]", "a[a:b:c]", "[*][a:b:c]", "[a:b:c][0] (projection rhs)", "typed []float64", "typed []string"}
+var sliceForms = []string{"bare [a:b:c]", "a[a:b:c]", "[*][a:b:c]", "[a:b:c][0] (projection rhs)", "typed []float64", "typed []string", "[a:b:c].a (projection rhs)"}
 
 func window(n, pad int) []string {
 	v := []string{""}
@@ -62,7 +62,7 @@ func seqArray(n int) []interface{} {
 
 func c08(r *mon.Run) {
 	r.Rule = "exhaustive: every (n, start, stop, step) with n in 0..N and start/stop/step in {absent} ∪ [-n-3, n+3], in several syntactic positions and on typed Go slices; " +
-		"boundary values ±1, ±2, ±(2^31-1), ±2^31, ±(2^63-2), ±(2^63-1), -2^63 crossed into every position for n in {0,1,2,3,5}; values beyond 64 bits; every non-array operand; every ordered pair of 20 slice parameter triples as two slice nodes of one expression (multi-select, pipe, hash, nested), the compiled expression searched twice. " +
+		"boundary values ±1, ±2, ±(2^31-1), ±2^31, ±(2^63-2), ±(2^63-1), -2^63 crossed into every position for n in {0,1,2,3,5}; values beyond 64 bits; number spellings with leading zeros and -0 on a 12-element array; every non-array operand; every ordered pair of 20 slice parameter triples as two slice nodes of one expression (multi-select, pipe, hash, nested), the compiled expression searched twice. " +
 		"Oracle: ref.PySliceIndices (CPython PySlice_AdjustIndices in unbounded integers). Non-trivial = distinct (expression, document) whose expected selection is non-empty."
 	r.Exhaustive = true
 	r.Assumptions = []string{"the slice model ref.PySliceIndices equals CPython slicing (checked against a table frozen from CPython in setup self-tests)",
@@ -90,13 +90,25 @@ func c08(r *mon.Run) {
 		v = append(v, strconv.Itoa(n), strconv.Itoa(-n-1), strconv.Itoa(n+1))
 		add(n, v, 0)
 	}
+	// boundary values also where the slice is followed by a right-hand side (a fused slice+projection walk
+	// has its own loop) and after a head expression
+	for _, n := range []int{2, 4} {
+		add(n, bounds, 3)
+		add(n, bounds, 6)
+	}
+	add(3, bounds, 1)
 	if r.Tier == "thorough" {
 		for _, n := range []int{2, 4} {
-			for form := 1; form <= 5; form++ {
+			for _, form := range []int{1, 2, 4, 5} {
 				add(n, bounds, form)
 			}
 		}
 	}
+	// spellings of the numbers: leading zeros, -0 (decimal, never octal), on an array longer than 8
+	spell := []string{"", "010", "-010", "08", "-08", "00", "-0", "007", "0011", "1", "-1", "012"}
+	add(12, spell, 0)
+	add(12, spell, 1)
+	add(12, spell, 6)
 	// beyond 64 bits
 	huge := []string{"", "1", "-1", "9223372036854775808", "-9223372036854775809", "18446744073709551616", "-18446744073709551616",
 		"1000000000000000000000000000000", "-1000000000000000000000000000000"}
@@ -134,6 +146,13 @@ func c08(r *mon.Run) {
 				outer[i] = []interface{}{float64(10 + i), float64(20 + i)}
 			}
 			return gen.Chain(nil, sl, gen.StIndex(0)), outer, outer
+		case 6:
+			// elements are objects: the right-hand side .a is applied per selected element
+			outer := make([]interface{}, b.n)
+			for i := range outer {
+				outer[i] = map[string]interface{}{"a": float64(100 + i)}
+			}
+			return gen.Chain(nil, sl, gen.StField("a")), outer, outer
 		case 4:
 			fs := make([]float64, b.n)
 			for i := range fs {
@@ -175,7 +194,7 @@ func c08(r *mon.Run) {
 			cx := &caseCtx{r, t, "slices", i}
 			res := ref.RefSet(tree, mdoc, gen.Quirks{})
 			var obs mon.Observed
-			if b.form >= 4 {
+			if b.form == 4 || b.form == 5 {
 				obs = apiSearch(expr, ldoc)
 			} else if i%2 == 0 {
 				obs = apiSearch(expr, mon.DeepCopy(ldoc))
